@@ -19,6 +19,10 @@ def offsets(data):
         pos[(line, col)] = k + 1
     return pos
 
+def fname(i, t):
+    """file names whose alphabetical order is not the order on the command line (z, b, y, a ...)"""
+    return 'in%d_%s%d.json' % (i, 'zbyaxc'[t % 6], t)
+
 def run(ctx):
     rnd = ctx['rnd']; n = 120 if ctx['tier'] == 'quick' else 4000
     cases = []; meta = {}
@@ -56,10 +60,10 @@ def run(ctx):
             for cpos in cuts + [len(data)]: groups.append(data[prev:cpos]); prev = cpos
             inside = True
         fc = {'id': 'F%d' % i, 'cfg': clone_cfg(cfg, select=cfg['select'] + (['&file-name=fn'] if rnd.random() < 0.5 else [])), 'files': True,
-              'inputs': [{'data': g, 'name': 'in%d_%d.json' % (i, t)} for t, g in enumerate(groups)]}
+              'inputs': [{'data': g, 'name': fname(i, t)} for t, g in enumerate(groups)]}
         cases.append(fc); meta[fc['id']] = ('files', fc['cfg'], groups, inside)
         for t, g in enumerate(groups):
-            sc = {'id': 'S%d_%d' % (i, t), 'cfg': fc['cfg'], 'files': True, 'inputs': [{'data': g, 'name': 'in%d_%d.json' % (i, t)}]}
+            sc = {'id': 'S%d_%d' % (i, t), 'cfg': fc['cfg'], 'files': True, 'inputs': [{'data': g, 'name': fname(i, t)}]}
             cases.append(sc); meta[sc['id']] = ('single', fc['cfg'], g, t)
             if not any('&file-name' in x for x in fc['cfg']['select']):
                 ic = mkcase('I%d_%d' % (i, t), fc['cfg'], g); cases.append(ic); meta[ic['id']] = ('asstdin', fc['cfg'], g, sc['id'])
@@ -142,7 +146,7 @@ def run(ctx):
         if any(x for x in (cfg['sort'], cfg['unique'], cfg['skip'], cfg['take'] is not None, cfg['group'] is not None)) or any('&index=' in s for s in cfg['select']): continue
         checked += 1
         import re
-        norm = lambda b: re.sub(rb'"fn": "[^"]*?(in\d+_\d+\.json)"', rb'"fn": "\1"', b)
+        norm = lambda b: re.sub(rb'"fn": "[^"]*?(in\d+_[a-z]\d+\.json)"', rb'"fn": "\1"', b)
         exp = b''.join(norm(s['stdout']) for s in singles)
         if norm(a['stdout']) != exp:
             violations.append(viol(c, 'reading files f1..fn processes the values of f1, then f2, ..., no value spanning two files (output == concatenation of per-file outputs)', norm(a['stdout']).decode('utf8', 'replace')[:400], exp.decode('utf8', 'replace')[:400]))
@@ -210,7 +214,7 @@ def viol(c, rel, obs, exp):
 
 def replay(ctx, r):
     c = {'id': 'r', 'cfg': lib.new_cfg(), 'args': r['args'], 'files': r.get('files', False),
-         'inputs': [{'data': bytes.fromhex(h), 'name': 'in0_%d.json' % t} for t, h in enumerate(r['inputs_hex'])]}
+         'inputs': [{'data': bytes.fromhex(h), 'name': fname(0, t)} for t, h in enumerate(r['inputs_hex'])]}
     if r.get('dir'):
         c['dir'] = True
         for x, nm in zip(c['inputs'], r.get('names', [])): x['name'] = nm
